@@ -8,6 +8,5 @@ wt="/tmp/$id"
 git -C /repo worktree add -q "$wt" HEAD || exit 2
 trap 'git -C /repo worktree remove --force "$wt" >/dev/null 2>&1; rm -rf "/tmp/$id-out"' EXIT
 git -C "$wt" apply "$patch" || { echo "PATCH DOES NOT APPLY"; exit 2; }
-(cd "$wt" && GOFLAGS=-mod=mod GOPROXY=off GOSUMDB=off GOTOOLCHAIN=local go build ./... ) || { echo "MUTANT DOES NOT BUILD"; exit 2; }
 VERIF_REPO="$wt" VERIF_OUT="/tmp/$id-out" "$(dirname "$0")/check" "$prop" "$tier" | grep -E "VIOLATION|class=|KNOWN|SUMMARY|BROKEN" | cut -c1-400 | head -${MUTCHECK_LINES:-12}
 echo "exit=${PIPESTATUS[0]}"
